@@ -175,16 +175,48 @@ theorem before_fix_stale_offsets_panic :
 theorem lossy_valid (raw : Bytes) (h : Utf8.valid raw = true) : Utf8.lossy raw = raw :=
   Panics.lossy_of_valid raw h
 
-/-- scanner.rs::generate_hunks `line_after`: total for EVERY line and column (valid UTF-8 or not) -/
-theorem lineAfter_total (line content repl : Bytes) (col : Nat) :
-    (lineAfterCur line col content repl).isSome = true := by
-  have hflag : Gen.PanicGuards.lineAfterChecked = true := by decide
-  simp only [lineAfterCur, hflag, if_true]
+/-- the raw-slice-compare shape (7807217): when `line.get(match_col..raw_end)` is `Some(content)` the two unchecked byte
+    slices `&line[..match_col]` and `&line[raw_end..]` are in range — for every byte line, column and content -/
+theorem lineAfterRaw_total (raw content repl : Bytes) (col : Nat) : (lineAfterRaw raw col content repl).isSome = true := by
+  unfold lineAfterRaw
+  simp only
+  split
+  · rename_i h
+    have hr : col ≤ col + content.length ∧ col + content.length ≤ raw.length := by
+      unfold byteSlice at h
+      split at h
+      · assumption
+      · cases h
+    have h1 : byteSlice raw 0 col = some ((raw.take col).drop 0) := by simp [byteSlice]; omega
+    have h2 : byteSlice raw (col + content.length) raw.length = some ((raw.take raw.length).drop (col + content.length)) := by
+      simp [byteSlice, hr.2]
+    rw [h1, h2]; rfl
+  · rfl
+
+/-- the `line_string.get(match_col..)` shape (ac203f2) is total as well -/
+theorem lineAfterStr_total (line content repl : Bytes) (col : Nat) :
+    (lineAfterChecked line col content repl).isSome = true := by
   unfold lineAfterChecked; split <;> (try split) <;> rfl
+
+/-- scanner.rs::generate_hunks `line_after` AS THE SOURCE HAS IT NOW: total for EVERY raw line and column (valid UTF-8 or
+    not).  Holds for either repaired shape; the unchecked one makes the `decide` below fail. -/
+theorem lineAfter_total (raw content repl : Bytes) (col : Nat) :
+    (lineAfterOfRaw raw col content repl).isSome = true := by
+  have hflag : Gen.PanicGuards.lineAfterRawChecked = true ∨ Gen.PanicGuards.lineAfterChecked = true := by decide
+  unfold lineAfterOfRaw
+  cases hr : Gen.PanicGuards.lineAfterRawChecked with
+  | true => simp only [if_true]; exact lineAfterRaw_total raw content repl col
+  | false =>
+    have hs : Gen.PanicGuards.lineAfterChecked = true := by
+      rcases hflag with h | h
+      · rw [hr] at h; cases h
+      · exact h
+    simp only [Bool.false_eq_true, if_false, lineAfterCur, hs, if_true]
+    exact lineAfterStr_total _ content repl col
 
 theorem lineAfterOfRaw_total (raw content repl : Bytes) (col : Nat) :
     (lineAfterOfRaw raw col content repl).isSome = true :=
-  lineAfter_total _ content repl col
+  lineAfter_total raw content repl col
 
 /-- ambiguity/resolver.rs `line.get(..match_pos).unwrap_or("")` -/
 theorem resolverPrefix_total (line : Bytes) (pos : Nat) : (resolverPrefixCur line pos).isSome = true := by
@@ -207,8 +239,12 @@ theorem colourSlices_total (line : Bytes) (col stop : Nat) : (matchesSlicesCur l
   simp [matchesSlicesCur, h1, h2, matchesSlicesChecked]
 
 example : lineAfterOfRaw b!"x foo_bar y" 2 b!"foo_bar" b!"baz_qux" = some b!"x baz_qux y" := by decide
-example : lineAfterOfRaw ([0xFF, 0x20] ++ b!"foo_bar") 2 b!"foo_bar" b!"baz_qux"
+/-- `\xff foo_bar`: the parts around the match are decoded separately (before 7807217 the line came back unchanged) -/
+example : lineAfterRaw ([0xFF, 0x20] ++ b!"foo_bar") 2 b!"foo_bar" b!"baz_qux" = some (Utf8.fffd ++ b!" baz_qux") := by decide
+example : lineAfterChecked (Utf8.lossy ([0xFF, 0x20] ++ b!"foo_bar")) 2 b!"foo_bar" b!"baz_qux"
     = some (Utf8.lossy ([0xFF, 0x20] ++ b!"foo_bar")) := by decide
+/-- a column past the end, or a content that is not there, takes the fallback -/
+example : lineAfterRaw b!"foo" 7 b!"foo" b!"x" = some b!"foo" := by decide
 
 /-- the unchecked shape was safe only under hypotheses: valid UTF-8 line, column and match end on boundaries -/
 theorem before_fix_lineAfter_safe_on_valid_utf8 (raw content repl : Bytes) (col : Nat)
